@@ -126,3 +126,27 @@ Proof. exact encode_o_no_substores. Qed.
 Theorem C05_no_substores_decode : forall d b, parse_bstore (fst d) = Some b -> b_include b = [] ->
   decode_o d = option_map (fun s => (s, own_new no_owners s None)) (decode d).
 Proof. exact decode_o_no_substores. Qed.
+
+(* the class of the theorem is inhabited by stores with removed slots, items without identifiers,
+   a relative offset in end-aligned mode, a complex selector and stand-off files *)
+Definition sample_store : dstore :=
+  mkdstore (Some [115%N])
+    [None; Some (mkdres [114%N] [104%N; 233%N; 108%N; 108%N; 111%N; 128512%N] (Some [114%N; 46%N; 116%N; 120%N; 116%N]))]
+    [Some (mkdset [100%N] [None; Some [107%N]] [None; Some (mkddata None 1 (XList [XInt (-3)%Z; XFix 500%Z])); Some (mkddata (Some [120%N]) 1 XNull)]
+                  (Some [100%N; 46%N; 106%N; 115%N; 111%N; 110%N]))]
+    [None;
+     Some (mkdann None [(0, 1)] 0 [DText 1 1 5 EndEnd]);
+     None;
+     Some (mkdann (Some [97%N]) [(0, 2); (0, 1)] 0 [DAnnText 1 1 2 4 BeginEnd]);
+     Some (mkdann None [] 2 [DAnn 3; DKey 0 1; DData 0 1; DRes 1; DSet 0])].
+
+Example C05_roundtrip_nonvacuous :
+  wf_dstore sample_store = true
+  /\ (match canon sample_store with
+      | Some c => match decode (encode_c c) with
+                  | Some s' => match canon s' with
+                               | Some c' => andb (Nat.eqb (length (c_anns c')) 3) (Nat.eqb (length (st_anns s')) 5)
+                               | None => false end
+                  | None => false end
+      | None => false end) = true.
+Proof. split; vm_compute; reflexivity. Qed.
